@@ -213,6 +213,24 @@ def run(R, tier):
                 if gs != ws:
                     viol('number-operand', f'x * {num!r} (after x * {seq[0]!r} on the same algebra) = {gs}, with the scalar multivector holding {num!r}: {ws}; x = {dict(zip(xb.keys(), xb.values()))}',
                          algebra=spec, op='*', side='right', number=repr(num), x=[(int(k_), int(v_)) for k_, v_ in zip(xb.keys(), xb.values())])
+        # 3c. an array of exact numbers (dtype object: Fractions) as the other operand = the scalar multivector holding that array
+        from fractions import Fraction as _Fr
+        wts = np.array([_Fr(2, 7), _Fr(-1, 3), _Fr(5, 2)][:shape[0]] + [_Fr(1, 2)] * max(0, shape[0] - 3), dtype=object)
+        if len(shape) == 1:
+            R.count('clause=object-array-operand'); R.case(('objarr', algs.describe(spec), tuple(ka), str(shape)), True)
+            try:
+                res_o = X * wts
+                if not isinstance(res_o, MultiVector):
+                    viol('number-operand', f'X * (object array of {len(wts)} Fractions) is a {type(res_o).__name__}, not a multivector (shape {shape}, {container})', algebra=spec, op='*', side='right', number='object array')
+                else:
+                    for i_ in range(shape[0]):
+                        l_ = {int(k_): float(np.asarray(v_).reshape(-1)[0]) for k_, v_ in zip(res_o[i_].keys(), res_o[i_].values())}
+                        r_ = {int(k_): float(v_) * float(wts[i_]) for k_, v_ in zip(X[i_].keys(), X[i_].values())}
+                        if any(abs(l_.get(k_, 0) - r_.get(k_, 0)) > 1e-9 for k_ in set(l_) | set(r_)):
+                            viol('index-commutes', f'(X * w)[{i_}] != X[{i_}] * w[{i_}] for an object array w of Fractions (shape {shape}, {container})', algebra=spec, op='*', index=str(i_), keys=[ka])
+                            break
+            except Exception as e:  # noqa
+                viol('array-op-raises', f'X * (object array of Fractions) raised {type(e).__name__}: {e}'[:200], algebra=spec, op='*')
         # 4. list / tuple operands, callables, operand order with non-commuting operands
         a = oc.make_mv(alg, ka, [float(v) for v in oc.random_values(rng, len(ka), zero_p=0)])
         b = oc.make_mv(alg, kb, [float(v) for v in oc.random_values(rng, len(kb), zero_p=0)])
@@ -871,6 +889,32 @@ def storage_part(R, tier):
             want = [[raw[a][i][j] for a in range(k)] for i in range(gn) for j in range(gm)]
             if got != want:
                 R.violation({'clause': 'storage-grid'}, dict(rep, impl=got), f'itermv() of a {gn}x{gm} grid ({back}) yields the elements {got}, row-major order is {want}')
+            # a list of indices selects / assigns whole rows of every coefficient (numpy's meaning of a list index)
+            rows = sorted(set([0, gn - 1]))
+            sel = X[rows]
+            if [np.asarray(v).tolist() for v in sel.values()] != [[raw[a][r_] for r_ in rows] for a in range(k)]:
+                R.violation({'clause': 'storage-grid'}, dict(rep, index=rows), f'X[{rows}] of a {gn}x{gm} grid ({back}) is {[np.asarray(v).tolist() for v in sel.values()]}')
+            X2 = MultiVector.fromkeysvalues(alg, tuple(keys), np.array(raw, dtype=np.int64).copy() if back == 'nd3' else list(np.array(raw, dtype=np.int64).copy()))
+            V_ = MultiVector.fromkeysvalues(alg, tuple(keys), [100 + a for a in range(k)])
+            try:
+                X2[rows] = V_
+                after = [np.asarray(v).tolist() for v in X2.values()]
+                want_after = [[[100 + a] * gm if r_ in rows else raw[a][r_] for r_ in range(gn)] for a in range(k)]
+                if after != want_after:
+                    R.violation({'clause': 'storage-grid'}, dict(rep, index=rows), f'X[{rows}] = V on a {gn}x{gm} grid ({back}) leaves {after}, numpy semantics give {want_after}')
+            except (IndexError, ValueError, TypeError):
+                pass            # refusing a list index is not a wrong value
+            # a selection is a view: assigning through it changes the original (X[::2][0] = V)
+            if gn >= 2:
+                X3 = MultiVector.fromkeysvalues(alg, tuple(keys), np.array(raw, dtype=np.int64).copy() if back == 'nd3' else list(np.array(raw, dtype=np.int64).copy()))
+                try:
+                    view = X3[::2]
+                    view[0] = V_
+                    after3 = [np.asarray(v)[0].tolist() for v in X3.values()]
+                    if after3 != [[100 + a] * gm for a in range(k)]:
+                        R.violation({'clause': 'storage-grid'}, dict(rep, index='X[::2][0]'), f'X[::2][0] = V on a {gn}x{gm} grid ({back}): row 0 of X is now {after3}, expected the values of V (a strided selection is a view)')
+                except (IndexError, ValueError, TypeError):
+                    pass
             i, j = rng.randrange(gn), rng.randrange(gm)
             e = X[i, j]
             if list(e.keys()) != keys or [int(v) for v in e.values()] != [raw[a][i][j] for a in range(k)]:
